@@ -14,7 +14,8 @@ ID = "C01"
 LEVEL = "exploration"
 RULE = ("Universal document strategy (single tables, 2-4 section documents, figure documents; every optional "
         "component present/absent; header modes default/explicit/own-width/multi-row/none/as_colheader=False; "
-        "as_table flags; 27 placement triples; orientation and custom paper; nrow 1-50; page_by/subline_by/"
+        "as_table flags; 27 placement triples; a class of neighbouring-type values for one setting (\"9\", 10.0, 1.5, True, 'Red' ...: "
+        "refused at construction = excluded, accepted = must encode); orientation and custom paper; nrow 1-50; page_by/subline_by/"
         "group_by/new_page/pageby_row/pageby_header; attribute shapes scalar/per-column/per-row/matrix; integer "
         "and half-point sizes) plus an exhaustive boolean/enum skeleton sweep. Oracle: rtf_encode() returns str "
         "(ValueError only if a group_by prefix key is non-contiguous by an independent reference); reader "
@@ -30,12 +31,42 @@ ASSUMPTIONS = [
 CFG = gen.Cfg(max_cols=6, max_rows=30, nrow_range=(1, 50), allow_group_by=True, half_points=True,
               as_colheader_false=True, long_text=0.15, noncontig=0.3, group_by_p=4,
               header_modes=("default", "explicit", "explicit_w", "multi", "none", "explicit_all"), multi_grouping=True,
-              numeric_page_by=0.3, page_by_return=0.2, subline_return=0.2, paper_range=(4.5, 60.0))
+              numeric_page_by=0.3, page_by_return=0.2, subline_return=0.2, paper_range=(4.5, 60.0), group_blanks=True)
 CFG_SMALL = replace(CFG, max_rows=12, nrow_range=(1, 8))
 
 
+# values of a neighbouring type for one setting: whether construction accepts them is the library's choice (pydantic
+# coerces "9" and 10.0, refuses 1.5 for an int) - but whatever it accepts must encode
+BOUNDARY = {
+    ("body", "text_space"): [1.5, 2.0, "2", True, 1.15], ("body", "text_font_size"): ["9", True, "10.5"], ("body", "text_indent_left"): [12.5, 12.0, "30"],
+    ("body", "border_width"): [7.5, "15", 20.0], ("page", "nrow"): [10.0, "12", 7.5], ("body", "text_font"): [1.0, "1", True, 2.5],
+    ("body", "cell_height"): ["0.2", 1], ("title", "text_font_size"): ["12", 12], ("title", "text_space"): [1.5, 2.0], ("body", "text_hyphenation"): ["yes", 1, 0],
+    ("page", "col_width"): ["6", 6], ("body", "text_space_before"): [7.5, "15"], ("footnote", "text_space"): [1.5], ("page", "margin"): [[1, 1, 1, 1, 1, 1], ["1"] * 6],
+    ("body", "text_justification"): ["C", "L"], ("body", "border_left"): ["Single", " single"], ("page", "orientation"): ["Portrait"],
+    ("body", "text_color"): ["Red", "RED", " red"], ("body", "cell_vertical_justification"): ["Top"],
+}
+
+
+@st.composite
+def _boundary(draw):
+    rec = draw(gen.table_recipe(CFG_SMALL))
+    (comp, attr), values = draw(st.sampled_from(sorted(BOUNDARY.items())))
+    v = draw(st.sampled_from(values))
+    if comp == "body":
+        rec["sections"][0]["body"][attr] = v
+    elif comp == "page":
+        rec.setdefault("page", {})[attr] = v
+    else:
+        rec.setdefault(comp, {"text": ["@" + comp[0].upper() + "0"]})
+        if rec[comp] is None:
+            rec[comp] = {"text": ["@" + comp[0].upper() + "0"]}
+        rec[comp][attr] = v
+    rec["may_refuse"] = f"{comp}.{attr}={v!r}"
+    return rec
+
+
 def strategy(tier):
-    return st.one_of(gen.universal(CFG_SMALL), gen.universal(CFG))
+    return st.one_of(gen.universal(CFG_SMALL), gen.universal(CFG), gen.universal(CFG_SMALL), gen.universal(CFG), _boundary())
 
 
 def budget(tier):
@@ -141,10 +172,13 @@ def check(case) -> Result:
     res = Result()
     out = run_recipe(case)
     if out.build_error:
+        if case.get("may_refuse") and out.build_error.split(":")[0] in ("ValidationError", "ValueError", "TypeError"):
+            res.excluded = "refused_at_construction"      # a neighbouring-type value the constructor does not take
+            return res
         res.harness_error = "recipe does not build: " + out.build_error
         return res
     res.checks = 1
-    labels = ["kind=" + case["kind"]]
+    labels = ["kind=" + case["kind"]] + (["boundary_value_accepted"] if case.get("may_refuse") else [])
     if out.encode_error:
         etype, frame, msg = out.encode_error
         noncontig = any(prefix_noncontiguous(s) for s in case.get("sections", []))
